@@ -131,6 +131,10 @@ class ExprMixin:
                 v = PyLit(self.prog.config_literal(), 'config', tags=frozenset(['global']))
             else:
                 v = self.eval_in_module(mod, expr)
+                if isinstance(v, PyLit):
+                    # a module-level name bound to (part of) the packaged configuration: what it holds is what the
+                    # configuration held when the module was imported
+                    v = PyLit(v.value, v.path, tags=frozenset(v.tags) | {'import-time'})
                 if isinstance(v, (DictV, ListV, FileV, ObjV)):
                     v.tags = frozenset(v.tags) | {'global'}
                 elif isinstance(v, (IterV, GenCallV)) and getattr(v, 'desc', None) not in ('range',) and \
@@ -1239,6 +1243,73 @@ class ExprMixin:
                     return False
         return True
 
+    def regen_genexp(self, itv):
+        """a generator expression with late-bound names, at the point where it is consumed: evaluated again with the bindings
+        of now (what Python does), silently; the provisional `unknown` of its creation is withdrawn"""
+        itv = self.resolve(itv)
+        late = getattr(itv, 'late', None)
+        if late is None:
+            return itv
+        gnode, fr, unk = late
+        if fr not in self.frames or getattr(self, '_regenerating', 0) > 6:
+            return itv
+        idx = self.frames.index(fr)
+        saved_frames = self.frames
+        self.frames = saved_frames[:idx + 1]
+        self._regenerating = getattr(self, '_regenerating', 0) + 1
+        self._suppress_events = getattr(self, '_suppress_events', 0) + 1
+        n_unk = len(self.unknowns)
+        try:
+            # its own source may be such an expression too (a pipeline): regenerate from the inside out
+            new = self._comprehension(gnode, gnode.elt, 'gen')
+        finally:
+            self._suppress_events -= 1
+            self._regenerating -= 1
+            self.frames = saved_frames
+        if isinstance(new, IterV) and len(self.unknowns) == n_unk:
+            if unk in self.unknowns:
+                self.unknowns.remove(unk)
+            itv.late = None
+            new.regenerated = True
+            return new
+        return itv
+
+    def _late_bound_names(self, node):
+        """local names read by the element / filters of a generator expression (not its own targets) that the enclosing
+        function assigns again at a later position, or anywhere in a loop that encloses the expression"""
+        fr = self.frames[-1]
+        fnode = fr.fi.node if fr.fi is not None else None
+        if fnode is None:
+            return []
+        own = {n.id for g in node.generators for n in ast.walk(g.target) if isinstance(n, ast.Name)}
+        read = {n.id for part in [node.elt] + [c for g in node.generators for c in g.ifs] + [g.iter for g in node.generators[1:]]
+                for n in ast.walk(part) if isinstance(n, ast.Name) and isinstance(n.ctx, ast.Load)} - own
+        if not read:
+            return []
+        loops = []
+        par = getattr(node, '_parent', None)
+        while par is not None and par is not fnode:
+            if isinstance(par, (ast.For, ast.While)):
+                loops.append(par)
+            par = getattr(par, '_parent', None)
+        pos = (node.lineno, node.col_offset)
+        out = set()
+        for n in ast.walk(fnode):
+            if isinstance(n, ast.Name) and isinstance(n.ctx, ast.Store) and n.id in read:
+                inside_own = False
+                q = n
+                while q is not None and q is not fnode:
+                    if q is node:
+                        inside_own = True
+                    q = getattr(q, '_parent', None)
+                if inside_own:
+                    continue
+                later = (n.lineno, n.col_offset) > pos
+                in_loop = any(any(x is n for x in ast.walk(lp)) for lp in loops)
+                if later or in_loop:
+                    out.add(n.id)
+        return sorted(out)
+
     def _consumed_at_once(self, node):
         """a generator expression written directly as the argument of a call that iterates it to the end"""
         par = getattr(node, '_parent', None)
@@ -1351,8 +1422,15 @@ class ExprMixin:
             d.comp = (ev, srcs, filtered)
             return d
         if kind == 'gen':
+            late = self._late_bound_names(node) if not self._consumed_at_once(node) else []
             r = IterV(ev, src=srcs[0] if srcs else None, filtered=filtered, desc='genexp',
                       length=None if filtered else length)
+            if late and not getattr(self, '_regenerating', 0):
+                # the element was evaluated with today's bindings, the generator expression will read tomorrow's: unknown
+                # until a consumer in a frame that still sees the defining frame re-evaluates it (regen_genexp)
+                self.note_unknown(node, f'generator expression reads {", ".join(late)}, rebound before the expression may be '
+                                        f'consumed (late binding)')
+                r.late = (node, fr, self.unknowns[-1])
             g0 = self.resolve(first_iter) if first_iter is not None else None
             if isinstance(g0, GenCallV) and not g0.started:
                 r.lazy_genexp = (node, fr, g0)
